@@ -699,6 +699,21 @@ Section ENGINE.
   Definition sem_chain (c : ctx) (ch : list stage) (l : list entry) : list entry :=
     fold_left (fun x s => sem_stage c s x) ch (data_of l).
 
+  (* what the client is given for an entry: everything but the fingerprint (series are label sets) *)
+  Definition erase (e : entry) : Z * option lbls * string * V * errk := (e_ts e, e_lbl e, e_msg e, e_val e, e_err e).
+  (* a data row as the ClickHouse getter delivers it: no error mark, a (non-nil) label map *)
+  Definition data_row (e : entry) : Prop := e_err e = ENone /\ exists m, e_lbl e = Some m.
+  (* the stages whose reference semantics is per entry / positional *)
+  Definition simple_stage (s : stage) : bool :=
+    match s with
+    | SLineFilter _ _ | SLabelFilter _ | SLabelFormat _ | SLineFormat _ | SUnwrap _ | SDrop _ _ | SByWithout _ _
+    | SComparison _ _ | SLimit => true
+    | _ => false
+    end.
+  Definition decodes (id : N) (e : entry) : Prop := parse id (e_msg e) <> None.
+  (* what ends a stream: an entry carrying io.EOF or an error *)
+  Definition terminator (e : entry) : Prop := e_err e <> ENone /\ e_err e <> ECrash.
+
   (* ---------------------------------------------------------------------------------------- *)
   (* comparison helpers for generated case files *)
   Definition olbls_eqb (a b : option lbls) : bool :=
